@@ -4,6 +4,7 @@ import (
 	"testing"
 
 	"verifharness/internal/gen"
+	"verifharness/internal/vp"
 )
 
 func seedDict(f *testing.F) {
@@ -18,7 +19,7 @@ func seedDict(f *testing.F) {
 func FuzzIP(f *testing.F) {
 	seedDict(f)
 	f.Fuzz(func(t *testing.T, s string) {
-		if _, err := checkIP(s); err != nil {
+		if err := vp.Guard(func() error { _, err := checkIP(s); return err }); err != nil {
 			t.Fatal(err)
 		}
 	})
@@ -27,7 +28,7 @@ func FuzzIP(f *testing.F) {
 func FuzzIPPort(f *testing.F) {
 	seedDict(f)
 	f.Fuzz(func(t *testing.T, s string) {
-		if _, err := checkIPPort(s); err != nil {
+		if err := vp.Guard(func() error { _, err := checkIPPort(s); return err }); err != nil {
 			t.Fatal(err)
 		}
 	})
@@ -36,10 +37,13 @@ func FuzzIPPort(f *testing.F) {
 func FuzzHost(f *testing.F) {
 	seedDict(f)
 	f.Fuzz(func(t *testing.T, s string) {
-		if _, err := checkHost(s); err != nil {
-			t.Fatal(err)
-		}
-		if _, err := checkLabel(s); err != nil {
+		if err := vp.Guard(func() error {
+			if _, err := checkHost(s); err != nil {
+				return err
+			}
+			_, err := checkLabel(s)
+			return err
+		}); err != nil {
 			t.Fatal(err)
 		}
 	})
